@@ -279,7 +279,8 @@ class SystemsWorld:
     def generate(self, streams, tier, index):
         kr = streams.get("knobs")
         spec = gen_spec(streams.get("world"))
-        knobs = {"numtype": kr.choice(["float", "Fraction", "Fraction"])}
+        knobs = {"numtype": kr.choice(["float", "Fraction", "Fraction"]),
+                 "look_rate": kr.choice([0.1, 0.25, 0.5, 1.0])}
         pg = ProgGen(streams.get("program"), spec)
         size = kr.choice([6, 10, 16, 24, 40])
         program = [pg.step() for _ in range(size)]
@@ -411,9 +412,21 @@ class _Run:
     def system_now(self):
         return self.cur_system[1]
 
-    def check_members(self, why):
+    def check_members(self, why, everything=False):
+        """Compare memberships with the model. Which groups and systems are looked at after a step
+        is itself part of the explored history: reading a membership (re)fills its memo, so
+        looking at everything after every step would keep all memos warm and hide invalidation
+        defects that need a memo to be cold on one level and warm on another."""
         ureg, model = self.ureg, self.model
+        rate = self.case["knobs"].get("look_rate", 1.0)
+        seed = self.case["faults"]["seed"]
+
+        def look(name):
+            return everything or rate >= 1.0 or core.unit_float(seed, "look", self.cur, name) < rate
+
         for g in model.groups:
+            if not look(g):
+                continue
             self.col.checks += 1
             try:
                 got = set(ureg.get_group(g, False).members)
@@ -424,6 +437,8 @@ class _Run:
                 raise Violation("C14.members", self.cur, {
                     "group": g, "when": why, "missing": sorted(want - got), "unexpected": sorted(got - want)})
         for s in model.systems:
+            if not look("sys:" + s):
+                continue
             self.col.checks += 1
             got = set(ureg.get_system(s, False).members)
             want = model.sys_members(s)
@@ -440,6 +455,8 @@ class _Run:
         try:
             for s in self.case["program"]:
                 self.step(s)
+            self.cur = "end"
+            self.check_members("end", everything=True)
         except _EndRun:
             pass
 
